@@ -553,3 +553,25 @@ add('C04.concat_overwrites_input_stats', 'C04', (MMU, "  op_tensor_params.append
 add('C11.check_only_star', 'C11', (RM, "          if selected_recipe.algorithm_key != AlgorithmName.NO_QUANTIZE:\n            # The selected recipe must contain a supported config.",
     "          if (\n              selected_recipe.algorithm_key != AlgorithmName.NO_QUANTIZE\n              and selected_recipe.operation == _TFLOpName.ALL_SUPPORTED\n          ):\n            # The selected recipe must contain a supported config."),
     'C11.R3', 'resolve-time support check only for "*" rules: a specific-op rule that became unsupported (policy replaced) is still selected (seeded b4-C03; MISSED by the first version: the store lattice had no unsupported specific-op rule)')
+
+# ------------------------------------------------- after blind round 4
+add('C15.filter_group', 'C15', (PG, "      if len(tensors) <= 1:\n        continue\n      first_tensor = tensors[0]",
+    "      tensors = [t for t in tensors if tfl_flatbuffer_utils.get_tensor_name(t) in self.model_quant_results]\n      if len(tensors) <= 1:\n        continue\n      first_tensor = tensors[0]"),
+    'C15.R1', 'sharers without a recorded result are filtered out of the group (seeded b4-C15)')
+add('C15.unknown_op_unrecorded', 'C15', (PG, "            op_quant_results = self._get_params_for_no_quant_op(\n                subgraph_op_id, op, subgraph.tensors\n            )\n            self._update_model_quant_results(op_quant_results)\n            continue\n          op_key",
+    "            continue\n          op_key"), 'C15.R7', 'unknown operators record nothing (seeded b4-C15)')
+add('C15.twin_group_rename', 'C15', (PG, "    for tensors in self.buffer_to_tensors.values():\n      if len(tensors) <= 1:\n        continue\n      first_tensor = tensors[0]",
+    "    for sharers in self.buffer_to_tensors.values():\n      if len(sharers) < 2:\n        continue\n      tensors = sharers\n      first_tensor = sharers[0]"), (), 'group variable renamed, aliased', kind='twin')
+add('C02.output_consumer_dropped', 'C02', ('transformation_performer.py', "        consumers.append(-1)\n        continue\n", "        continue\n"),
+    'C02.R5', 'the graph-output pseudo consumer is not handed to the transformation')
+add('C02.output_consumer_only_alone', 'C02', ('transformation_performer.py', "        consumers.append(-1)\n        continue\n", "        if len(instruction.consumers) == 1:\n          consumers.append(-1)\n        continue\n"),
+    'C02.R5', 'the graph-output pseudo consumer survives only when it is the only consumer (seeded b4-C02)')
+add('C02.twin_consumer_comprehension', 'C02', ('transformation_performer.py',
+    "    consumers = []\n    for original_op_id in instruction.consumers:\n",
+    "    consumers = []\n    for original_op_id in list(instruction.consumers):\n"), (), 'iterate a copy of the consumer list', kind='twin')
+add('C01.added_producer_off_by_one', 'C01', ('transformation_performer.py', "          instruction.producer\n          - len(self._original_op_id_map[transformation_inst.subgraph_id])\n",
+    "          instruction.producer\n          - len(self._original_op_id_map[transformation_inst.subgraph_id]) - 1\n"), 'C01.R12', 'added-op producer looked up one slot early')
+add('C19.map_of_subgraph_zero', 'C19', ('transformation_performer.py', "      consumers.append(\n          self._original_op_id_map[transformation_inst.subgraph_id][\n              original_op_id\n          ]\n      )",
+    "      consumers.append(self._original_op_id_map[0][original_op_id])"), 'C19.R9', 'consumer ids translated with the map of subgraph 0')
+add('C01.shared_added_lists', 'C01', ('transformation_performer.py', "    for subgraph in tflite_model.subgraphs:\n      self._original_op_id_map.append(list(range(len(subgraph.operators))))\n      self._added_op_id_map.append([])",
+    "    for subgraph in tflite_model.subgraphs:\n      self._original_op_id_map.append(list(range(len(subgraph.operators))))\n    self._added_op_id_map = [[]] * len(tflite_model.subgraphs)"), 'C01.R8', 'all subgraphs share one added-op list')
